@@ -143,9 +143,11 @@ def PHY.encryptFRM (E : BlockCipher) (key : Bytes) (p : PHY) : Outcome PHY :=
 
 def PHY.decodeFRM (reg : Registry) (p : PHY) : Outcome PHY :=
   match p.payload with
-  | some (.mac h fPort frm) => do
-    let f ← decodeItems reg p.isUplink frm
-    ok { p with payload := some (.mac h fPort f) }
+  | some (.mac h fPort frm) =>
+    if frm.length == 0 then ok p
+    else do
+      let f ← decodeItems reg p.isUplink frm
+      ok { p with payload := some (.mac h fPort f) }
   | _ => err
 
 /-- `PHYPayload.DecryptFRMPayload` -/
